@@ -29,7 +29,7 @@ HIST_ID = "2095-11-03_USA_G"
 
 
 def bounds(tier):
-    return {"perturbed_statuses": 8, "locations": 3, "replacements": PERT, "estimators": ["np2", "ga1", "bs1 (B=10)", "bs1 (B=3, fixed effects)"], "outlier_models": [False, True]}
+    return {"perturbed_statuses": 9, "locations": 3, "replacements": PERT, "estimators": ["np2", "ga1", "bs1 (B=10)", "bs1 (B=3, fixed effects)"], "outlier_models": [False, True]}
 
 
 def cases(tier, seed):
@@ -44,6 +44,8 @@ def cases(tier, seed):
     # a turnout surge (every reporting unit about 1.45 times its baseline): bootstrap turnout draws of the outstanding units
     # sit at the model's naive upper bound, so anything that moves that bound for everybody shows
     ptypes += [("nonrep_partial+surge", "pop0"), ("nonrep_partial+surge", "newcounty")]
+    # exactly 50 percent in: the default error bound on the expected-vote percentage (a 0/0 waits there for a zero count)
+    ptypes += [("nonrep_partial50", "pop0"), ("nonrep_partial50", "newcounty")]
     for st, loc in ptypes:
         for setup in ("np2", "ga1", "bs1", "bs1fe"):
             for outlier in (False, True):
@@ -125,6 +127,8 @@ def _pair_case(case, cov, viol):
         probe["pev"] = 60.0
     if st == "nonrep_partial99":
         probe["pev"] = 99.6
+    if st == "nonrep_partial50":
+        probe["pev"] = 50.0
     units.append(probe)
     units.append(E.make_probe(case["seed"], 1, "nonrep0", "pop1", weights=w))
     if st == "state_blocklisted":
